@@ -123,3 +123,42 @@ def gen_rewrite(repo, out):
 
 
 EXTRA_GENERATORS.append(gen_rewrite)
+
+
+# ---------------------------------------------------------------- legacy (v1) tables
+def gen_v1(repo, out):
+    mod = parse_file(repo, "v1patterns.py")
+    emit_pairs(out, "V1_COMPOSITE_PART_PATTERNS", dict_items(top_assign(mod, "COMPOSITE_PART_PATTERNS")), "v1patterns.COMPOSITE_PART_PATTERNS")
+    emit_pairs(out, "V1_PART_PATTERNS", dict_items(top_assign(mod, "PART_PATTERNS")), "v1patterns.PART_PATTERNS before _init_composite_patterns()")
+    emit_pairs(out, "V1_PATTERN_PART_FIELDS", dict_items(top_assign(mod, "PATTERN_PART_FIELDS")), "v1patterns.PATTERN_PART_FIELDS")
+    emit_pairs(out, "V1_FULL_PART_FORMATS", dict_items(top_assign(mod, "FULL_PART_FORMATS")), "v1patterns.FULL_PART_FORMATS")
+    # _init_composite_patterns must be called at module level exactly once
+    calls = [n for n in mod.body if isinstance(n, ast.Expr) and isinstance(n.value, ast.Call) and isinstance(n.value.func, ast.Name)
+             and n.value.func.id == "_init_composite_patterns"]
+    if len(calls) != 1:
+        die("v1patterns: expected exactly one module-level call of _init_composite_patterns()")
+    ver = parse_file(repo, "v1version.py")
+    emit_pairs(out, "V1_ID_FIELDS_BY_PART", dict_items(top_assign(ver, "ID_FIELDS_BY_PART")), "v1version.ID_FIELDS_BY_PART")
+    # the _normalized_pattern chain: version_pattern == <const>  ->  replace {pep440_version} by <const>
+    fn = top_func(mod, "_normalized_pattern")
+    chain = []
+    node = next((s for s in fn.body if isinstance(s, ast.If)), None)
+    while isinstance(node, ast.If):
+        t = node.test
+        if (isinstance(t, ast.Compare) and len(t.ops) == 1 and isinstance(t.ops[0], ast.Eq) and isinstance(t.left, ast.Name)
+                and t.left.id == "version_pattern"):
+            call = node.body[0].value if (len(node.body) == 1 and isinstance(node.body[0], ast.Assign)) else None
+            ok = (isinstance(call, ast.Call) and isinstance(call.func, ast.Attribute) and call.func.attr == "replace" and len(call.args) == 2
+                  and cstr(call.args[0]) == "{pep440_version}")
+            if not ok:
+                die("_normalized_pattern: unexpected branch body")
+            chain.append((cstr(t.comparators[0]), cstr(call.args[1])))
+        elif isinstance(t, ast.Compare) and isinstance(t.ops[0], ast.In):
+            pass  # the final warning branch
+        else:
+            die("_normalized_pattern: unexpected test " + ast.unparse(t))
+        node = node.orelse[0] if (len(node.orelse) == 1 and isinstance(node.orelse[0], ast.If)) else None
+    emit_pairs(out, "V1_PEP440_MAPPING", chain, "v1patterns._normalized_pattern: version_pattern -> replacement of {pep440_version}")
+
+
+EXTRA_GENERATORS.append(gen_v1)
